@@ -74,7 +74,7 @@ def _switch_back_one(ctx, rep, k, pname):
             for op in gen._untarget(w, {id(i) for i in w.all_items()}):
                 w.apply(op)
                 done.append(op)
-            if gen._buff_running(w) and gen._fleet_shared(w):
+            if not gen._switch_ok(w):
                 continue
             before = w.observe()
             home = w.src
@@ -123,7 +123,7 @@ def _away_work(ctx, rep, n):
             for op in gen._untarget(w, {id(i) for i in w.all_items()}):
                 w.apply(op)
                 done.append(op)
-            if gen._buff_running(w) and gen._fleet_shared(w):
+            if not gen._switch_ok(w):
                 continue
             home = w.src
             away = rnd.choice([i for i in list(range(len(w.unis))) + [None] if i != home])
